@@ -235,6 +235,10 @@ C06Clauses ==
         IsWrap(x, y) => Near(Z.hi_c[x + 1][y + 1] - Z.ylow[x + 1][Up(x, y) + 1], Obs.shiftangle[x + 1], 20), "closed")
   /\ ClauseAt("ShiftAngleIsTotal", Obs.has_bt = 0 \/ \A x \in XS :
         ClosedX(x) => RelNear(Obs.shiftangle[x + 1], SumOver(ClosedRows(x), LAMBDA y : I.Ilo_c[x + 1][y + 1] + I.Ihi_c[x + 1][y + 1]), ZTol), "closed")
+  \* ... also on the x-faces, where it is written only through chi_xlow = 2 pi zShift_xlow / ShiftAngle_xlow (faces inside the separatrix)
+  /\ ClauseAt("ShiftAngleIsTotal", Obs.has_bt = 0 \/ \A x \in XS :
+        ClosedX(x) => (Obs.shiftangle_xlow[x + 1] # NANV /\
+                       RelNear(Obs.shiftangle_xlow[x + 1], SumOver(ClosedRows(x), LAMBDA y : I.Ilo_l[x + 1][y + 1] + I.Ihi_l[x + 1][y + 1]), ZTol)), "closed_xlow")
   /\ ClauseAt("ShiftAngleNaNOnlyOnOpen", \A x \in XS : (Obs.shiftangle[x + 1] = NANV) = ~ClosedX(x), "all")
   /\ ClauseAt("ShiftAngleIsTwoPiQ", "circ_q2pi" \notin DOMAIN Obs \/ Obs.circ_q2pi = NANV
                                      \/ \A x \in XS : RelNear(Obs.shiftangle[x + 1], Obs.circ_q2pi, 200), "circular")
